@@ -930,6 +930,66 @@ func shpPairOk(p *gtab.PairAdjust) bool {
 	return p != nil && shpValueOk(p.First) && shpValueOk(p.Second)
 }
 
+func shpFixedLen(l *gtab.LookupTable) bool {
+	for _, s := range l.Subtables {
+		switch s.(type) {
+		case *gtab.Gsub2_1, *gtab.Gsub4_1:
+			return false
+		}
+	}
+	return true
+}
+
+func shpActions(s gtab.Subtable) []gtab.SeqLookup {
+	var out []gtab.SeqLookup
+	switch s := s.(type) {
+	case *gtab.SeqContext1:
+		for _, rs := range s.Rules {
+			for _, r := range rs {
+				out = append(out, r.Actions...)
+			}
+		}
+	case *gtab.SeqContext2:
+		for _, rs := range s.Rules {
+			for _, r := range rs {
+				out = append(out, r.Actions...)
+			}
+		}
+	case *gtab.SeqContext3:
+		out = s.Actions
+	case *gtab.ChainedSeqContext1:
+		for _, rs := range s.Rules {
+			for _, r := range rs {
+				out = append(out, r.Actions...)
+			}
+		}
+	case *gtab.ChainedSeqContext2:
+		for _, rs := range s.Rules {
+			for _, r := range rs {
+				out = append(out, r.Actions...)
+			}
+		}
+	case *gtab.ChainedSeqContext3:
+		out = s.Actions
+	}
+	return out
+}
+
+// shpNestedFixed: every nested action runs a lookup that is absent or length-preserving
+// (nestedFixedLL in Model/ShapeGuard.lean).
+func shpNestedFixed(ll gtab.LookupList) bool {
+	for _, l := range ll {
+		for _, s := range l.Subtables {
+			for _, a := range shpActions(s) {
+				if int(a.LookupListIndex) < len(ll) && !shpFixedLen(ll[a.LookupListIndex]) {
+					return false
+				}
+			}
+		}
+	}
+	return true
+}
+
 func shpGuardedSimple(ll gtab.LookupList) (guarded, simple bool) {
 	guarded, simple = true, true
 	for _, l := range ll {
@@ -1034,7 +1094,7 @@ func init() {
 	ops["shape.guarded"] = func(f Fields) string {
 		c := shpDecode(f)
 		g, s := shpGuardedSimple(c.ll)
-		if g && s {
+		if g && (s || shpNestedFixed(c.ll)) {
 			return "guarded"
 		}
 		return "unguarded"
@@ -1782,10 +1842,12 @@ func (g *shpGen) emit(c *shpCase, origin string) {
 	switch {
 	case gd && simple:
 		g.c.Stat("hypothesis", "guarded, no contextual subtable (C07_no_panic_partial applies)")
+	case gd && shpNestedFixed(c.ll):
+		g.c.Stat("hypothesis", "guarded, contextual, nested lookups length-preserving (C07_no_panic_nested_fixed applies)")
 	case gd:
-		g.c.Stat("hypothesis", "guarded, contextual")
+		g.c.Stat("hypothesis", "guarded, contextual with length-changing nested lookups (no theorem; direct stream only)")
 	default:
-		g.c.Stat("hypothesis", "unguarded")
+		g.c.Stat("hypothesis", "unguarded (outside the domain of no-panic; model decides)")
 	}
 	changed := false
 	for i, part := range strings.Split(out, "|") {
